@@ -10,6 +10,7 @@ CONSTANTS
   Limits = {1, 2}
   Nows <- NowsYQ
   WithApi = FALSE
+  WithReader = FALSE
   Pinned = FALSE
   PinnedApi = FALSE
 INVARIANT TypeOK
